@@ -40,18 +40,6 @@ Qed.
 
 (* ---- closed form of the spike-driven threshold adaptation (ALIF / GLIF2, no refractory freezing) ----
    Independent spec: every past spike contributes its increment, decayed by exp(-dt/tau) per step since. *)
-Fixpoint ats_run (a : R) (ss : list bool) (dt tc inc : R) : R :=
-  match ss with
-  | [] => a
-  | s :: tl => ats_run (ats a s dt tc inc None) tl dt tc inc
-  end.
-(* spikes in chronological order; a spike followed by k further steps has decayed k times... *)
-Fixpoint event_sum (lam inc : R) (ss : list bool) : R :=
-  match ss with
-  | [] => 0
-  | s :: tl => inc * ind s * lam ^ (length tl) + event_sum lam inc tl
-  end.
-
 Theorem threshold_adaptation_closed_form :
   forall (dt tc inc : R) (ss : list bool) (a : R),
     let lam := exp (- dt / tc) in
@@ -60,6 +48,7 @@ Proof.
   intros dt tc inc ss. induction ss as [|s tl IH]; intros a lam.
   - cbn. ring.
   - cbn [ats_run length event_sum]. rewrite IH.
-    destruct (adaptation_active a 0 s dt 0 tc 0 inc None Logic.I) as (_ & E & _). rewrite E.
-    fold lam. cbn [pow]. ring.
+    destruct (adaptation_active a 0 s dt 0 tc 0 inc None Logic.I) as (_ & E & _). 
+    match goal with |- ?x * _ + _ = _ => replace x with (a * exp (- dt / tc) + inc * ind s) by (symmetry; exact E) end.
+    subst lam. rn_simpl. cbn [Rpow_def.pow]. generalize (exp (- dt / tc) ^ length tl). intros y. ring.
 Qed.
